@@ -216,7 +216,7 @@ def strategy_for(kind):
             nargs = len(args_exact(kind, [[0] * (dim + 1)] * nb, [1, 1]))
             scales = [draw(C.cscale() if cplx else C.scale()) for _ in range(nargs)]
             bcast = draw(st.sampled_from([None, None] + list(range(nargs)))) if shape else None
-            via = draw(st.sampled_from(["func", "func", "method", "ctor"]))
+            via = draw(st.sampled_from(["func", "func", "method", "ctor", "ctor-arrays", "ctor-lists", "ctor-mixed"]))
             ints = [draw(st.booleans()) for _ in range(nargs)]
             mags = None
             if shape and npos > 1 and draw(st.booleans()):
@@ -238,6 +238,17 @@ def invoke(kind, via, objs, **kw):
         f = getattr(objs[0], op, None)
         if f is not None and not (op == "meet" and len(objs) > 2):
             return f(*objs[1:])
+    if via in ("ctor-arrays", "ctor-lists", "ctor-mixed") and not kw:
+        # Line(p, q) / LineCollection(p, q) with the points given by their homogeneous coordinate vectors (arrays, nested lists,
+        # or a point object and an array)
+        if kind in ("join_pp2", "join_pp3"):
+            single = all(o.free_indices == 0 for o in objs)
+            raw = [o.array if via != "ctor-lists" else o.array.tolist() for o in objs]
+            if via == "ctor-mixed":
+                raw[0] = objs[0]
+            if single or all(o.free_indices > 0 for o in objs):
+                return (Line if single else LineCollection)(*raw)
+        via = "ctor"
     if via == "ctor" and op == "join" and not kw:
         if kind in ("join_pp2", "join_pp3"):
             r = Line(*objs) if all(o.free_indices == 0 for o in objs) else LineCollection(*objs)
